@@ -89,6 +89,11 @@ def build_rules(rng, doc):
                 add("u", "%s.zz_missing.deeper exists" % q, path=jp, missing="zz_missing")
         else:
             add("u", "%s[%d] == 1" % (q, len(v) + 3), path=jp, missing=str(len(v) + 3))
+            inner = [x for x in v if isinstance(x, list) and x]
+            if inner and all(isinstance(x, list) for x in v) and all(not isinstance(y, (dict, list)) for x in inner for y in x):
+                # a list of lists: filter the outer list, then iterate each selected inner list with [*]
+                add("lf", '%s[ this !empty ][*] == "%s"' % (q, NEVER), path=jp)
+                add("uf", "%s[ this !empty ][*].zz_missing exists" % q, path=jp)
             if v and rng.random() < 0.5 and all(not isinstance(x, (dict, list)) for x in v):
                 add("l", '%s[*] == "%s"' % (q, NEVER), path=jp)
     # query on the right-hand side (the `to` value comes from the data)
@@ -196,6 +201,15 @@ def check_doc(ctx, rng, doc, sname):
             found, val = resolve(model, tp) if tp is not None else (False, None)
             depth = tp.count("/") if tp else 0
             ctx.res.extra.setdefault("unresolved_depths", set()).add(min(depth, 5))
+            if inf["kind"] == "uf":
+                # the point reached is a scalar element of an inner list: two levels below the filtered list
+                if not found or not re.match("^" + re.escape(qp) + r"/\d+/\d+$", tp or ""):
+                    ctx.violation("unresolved:filter-then-all-indices", "rule %s filters %s and iterates the selected inner lists, but reports reaching %r" % (rule, qp, tp), case)
+                    return
+                if not strict_eq(tv.get("value"), val):
+                    ctx.violation("unresolved:value-mismatch", "rule %s: value reported at %s is %r, document has %r" % (rule, tp, tv.get("value"), val), case)
+                    return
+                ctx.res.counts["filter_then_allidx_items"] += 1
             if inf["kind"] in ("u",):
                 if not found:
                     ctx.violation("unresolved:traversed-to-not-in-document", "rule %s: traversed_to path %r does not exist in the document" % (rule, tp), case)
@@ -230,6 +244,11 @@ def check_doc(ctx, rng, doc, sname):
         if inf["kind"] in ("s", "i") and slot == "from" and p != inf["path"]:
             ctx.violation("from:wrong-path", "rule %s queried %s but reports from %s" % (rule, inf["path"], p), case)
             return
+        if inf["kind"] == "lf" and slot == "from":
+            ctx.res.counts["filter_then_allidx_items"] += 1
+            if not re.match("^" + re.escape(inf["path"]) + r"/\d+/\d+$", p):
+                ctx.violation("from:filter-then-all-indices", "rule %s filters %s and iterates the selected inner lists, but reports from %s" % (rule, inf["path"], p), case)
+                return
         if inf["kind"] == "l" and slot == "from" and not p.startswith(inf["path"] + "/"):
             ctx.violation("from:wrong-path", "rule %s iterates %s but reports from %s" % (rule, inf["path"], p), case)
             return
@@ -260,6 +279,9 @@ def shard(ctx):
         if t % 5 == 0:
             # a long document so that lines > 10 and columns > 20 are common
             doc = {"k%d" % i: gen.gen_value(rng, 3, SCALARS, gen.KEYS[:8]) for i in range(12)}
+        if isinstance(doc, dict) and t % 2 == 0:
+            doc = dict(doc)
+            doc["g"] = [[rng.choice(SCALARS[:12]) for _ in range(rng.randint(1, 3))] for _ in range(rng.randint(1, 3))] + ([[]] if rng.random() < 0.4 else [])
         if isinstance(doc, dict) and t % 3 == 1:
             # doubles with random bit patterns and 64-bit integers: the reported value must be exactly the document's
             import math
